@@ -93,6 +93,8 @@ fn sources() -> Vec<String> {
         format!("{}a + 1{} * b", "(".repeat(60), ")".repeat(60)),
         "twice(twice(twice(slow(twice(a))))) + math::sqrt(b) ^ 2 - str::from(a) == s".to_string(),
         "(a, b, s, (a + b, s + s), typeof(s), nosuch(a))".to_string(),
+        // long identifiers (hashing of long keys, namespaced function names)
+        "a_rather_long_variable_name_beyond_sixteen_bytes + ns::a_long_function_name(a) * a - another::quite::long::name(b)".to_string(),
         format!("{}a{} + slow(b) * c", "-(".repeat(48), ")".repeat(48)),
         // many distinct builtins in one evaluation, in two different orders (whatever is cached per context or per
         // tree about resolved builtins is replaced all the time). Only exactly-specified builtins: Miri deliberately
@@ -109,6 +111,16 @@ fn make_ctx(variant: usize) -> Ctx {
     c.set_value("b".into(), Value::Float(b)).unwrap();
     c.set_value("c".into(), Value::Int(variant as i64 + 1)).unwrap();
     c.set_value("s".into(), Value::String(if variant % 2 == 0 { "hello".into() } else { "äb".into() })).unwrap();
+    c.set_value("a_rather_long_variable_name_beyond_sixteen_bytes".into(), Value::Int(1000 + variant as i64)).unwrap();
+    c.set_function("ns::a_long_function_name".into(), Function::new(|v: &Value| Ok(v.clone()))).unwrap();
+    c.set_function(
+        "another::quite::long::name".into(),
+        Function::new(|v: &Value| match v {
+            Value::Float(f) => Ok(Value::Float(f + 1.0)),
+            other => Ok(other.clone()),
+        }),
+    )
+    .unwrap();
     c.set_function(
         "twice".into(),
         Function::new(|v: &Value| match v {
@@ -207,7 +219,20 @@ fn main() {
                 let mut r = Rng(seed ^ (round << 20) ^ ((tid as u64) << 40));
                 barrier.wait();
                 let mut out: Vec<String> = Vec::new();
+                // a context set up on this very thread (whatever a context remembers about the thread that built it
+                // must not leak into a shared tree)
+                let own_variant = tid % 4;
+                let own = make_ctx(own_variant);
                 for e in 0..evals {
+                    if e % 3 == 0 {
+                        let ti = (e / 3 + tid) % trees.len();
+                        let got = format!("{:?}", trees[ti].eval_with_context(&own));
+                        total.fetch_add(1, Ordering::Relaxed);
+                        if got != expected[ti][own_variant] {
+                            mismatches.fetch_add(1, Ordering::Relaxed);
+                            out.push(format!("MISMATCH thread {} round {} tree {} on a context built on this thread (variant {}): expected {} got {}", tid, round, ti, own_variant, expected[ti][own_variant], got));
+                        }
+                    }
                     // thread-specific order; the same shared tree meets different contexts back to back
                     let ti = (e + tid + r.below(2)) % trees.len();
                     let ci = r.below(ctxs.len());
